@@ -338,7 +338,10 @@ func (k Keeper) UpdateLockedBorrows(ctx sdk.Context, updatedLockedVault types.Lo
 			updatedLockedVault.CurrentCollaterlisationRatio = collateralizationRatio
 			updatedLockedVault.CollateralToBeAuctioned = selloffAmount
 			k.SetLockedVault(ctx, updatedLockedVault)
-			k.SetLockedVaultID(ctx, updatedLockedVault.LockedVaultId)
+			// the id counter only moves forward: an older vault that is auctioned again must not make the next new vault reuse a live id
+			if updatedLockedVault.LockedVaultId > k.GetLockedVaultID(ctx) {
+				k.SetLockedVaultID(ctx, updatedLockedVault.LockedVaultId)
+			}
 		}
 		// now the auction will be started from the auction module for the lockedVault
 
